@@ -203,8 +203,11 @@ func (w *c13World) close() {
 func (w *c13World) feed(chunk []byte) {
 	for len(chunk) > 0 {
 		n, err := syscall.Write(w.peerFd, chunk)
+		if err == syscall.EPIPE || err == syscall.ECONNRESET {
+			return // the session under test has closed the connection (after an invalid event): the rest cannot be delivered
+		}
 		if err != nil {
-			panic("c13: socket write: " + err.Error())
+			panic("c13 harness: socket write: " + err.Error())
 		}
 		chunk = chunk[n:]
 	}
